@@ -18,6 +18,7 @@ import (
 	"strconv"
 	"strings"
 	"sync"
+	"time"
 
 	"github.com/NethermindEth/juno/consensus/starknet"
 	"github.com/NethermindEth/juno/consensus/tendermint"
@@ -41,6 +42,19 @@ type Replay struct {
 	Script []Input `json:"script"`
 	Kills  []Kill  `json:"kills"`
 	Note   string  `json:"note,omitempty"`
+	// Fault: instead of process deaths, the REAL log store fails at effect K of the uncrashed run
+	// (a flush with records pending); re-run by --replay
+	Fault *WalFault `json:"walfault,omitempty"`
+}
+
+// WalFault: the flush that is effect K of the uncrashed run fails inside walstore — Point
+// "before-write": the write of the batch fails; "after-sync": it is written and synced and the sync
+// reports an error (hook points walstore:append:*). Persistent: the store stays broken, the flush
+// `Close` makes fails the same way (else the failure is transient and `Close` gets the batch out).
+type WalFault struct {
+	K          int    `json:"k"`
+	Point      string `json:"point"`
+	Persistent bool   `json:"persistent"`
 }
 
 type vote struct {
@@ -111,6 +125,8 @@ type runner struct {
 	minInput   int  // first level: only crash points within the effects of script inputs >= minInput
 	deep       bool // second level exhaustive, too (long-run family)
 	noFault    bool
+	replayWF   *WalFault // --replay of a wal-fault case
+	earlyLong  bool      // long-run variant whose first log file must SURVIVE the cleanup
 	f          lib.Flags
 	res        *lib.Result
 	drv        *lib.Driver
@@ -136,6 +152,16 @@ func (rn *runner) ask(line string) string {
 	}
 	if a == "bad-op" {
 		rn.res.Fatalf("Lean driver answered bad-op to %q", line)
+	}
+	if strings.HasSuffix(a, " !seq") {
+		// the model of listen's loop structure (ModelListen.driverSeq): the real driver called the state
+		// machine with something `listen` cannot call it with at this point (a start that is not at boot
+		// / after a commit, or an event of the select where ProcessStart(0) is due)
+		a = strings.TrimSuffix(a, " !seq")
+		rn.res.Mismatch(lib.Mismatch{Sig: "listen-call-sequence", Input: line, Model: "not a call listen makes here", Impl: line})
+	}
+	if strings.HasPrefix(line, "in ") || strings.HasPrefix(line, "x") {
+		rn.res.Hit("listen-call-sequence-checked")
 	}
 	return a
 }
@@ -967,6 +993,7 @@ func (rn *runner) explore(cfg *Cfg, script []Input, startIdx int, ep *epoch, lin
 			}
 			rn.bootModel(cfg, rec.boot)
 			rn.tie(rec, rp)
+			rn.tieCommits(rec, rp)
 		}
 		rn.hypotheses(rec, rp)
 		twin := twinDump(cfg, ep.boot, append(append([]string{}, ep.loaded...), ep.appended[:ep.flushedN[k]]...))
@@ -1300,7 +1327,10 @@ func (rn *runner) faulty(cfg *Cfg, script []Input, ref *epoch, k int, cancelInCo
 	rp := Replay{Cfg: *cfg, Script: script, Note: fmt.Sprintf("injected fault at effect %d (%s)", k, ref.effects[k].Tok)}
 	if cancelInCommit > 0 {
 		rp.Note = fmt.Sprintf("the context is cancelled while the commit listener %s, at effect %d (%s)",
-			[]string{"", "tries to hand the block to the persister", "waits for the persister's acknowledgement"}[cancelInCommit], k, ref.effects[k].Tok)
+			[]string{"", "tries to hand the block to the persister", "waits for the persister's acknowledgement"}[min(cancelInCommit, 2)], k, ref.effects[k].Tok)
+		if cancelInCommit == 3 {
+			rp.Note = fmt.Sprintf("the block persister answers the commit listener with an error, at effect %d (%s)", k, ref.effects[k].Tok)
+		}
 	}
 	ep, err := startEpoch(cfg, rn.dir(), "", cfg.C0, 0, k)
 	if ep == nil {
@@ -1317,12 +1347,15 @@ func (rn *runner) faulty(cfg *Cfg, script []Input, ref *epoch, k int, cancelInCo
 	if cancelInCommit > 0 {
 		kind = fmt.Sprintf("deliver-by-cancel-%d", cancelInCommit)
 	}
+	if cancelInCommit == 3 {
+		kind = "deliver-persist-error"
+	}
 	rn.res.Hit("fault-injected-" + kind)
 	if ep.failedAt < 0 {
 		rn.res.Hit("fault-not-reached")
 		return
 	}
-	stopped := cancelInCommit > 0 // the context was cancelled: Run returns nil or the context's error
+	stopped := cancelInCommit == 1 || cancelInCommit == 2 // the context was cancelled: Run returns nil or the context's error
 	for _, e := range ep.errs {
 		if strings.HasPrefix(e, "run: ") && !strings.Contains(e, "panic") {
 			stopped = true
@@ -1331,6 +1364,7 @@ func (rn *runner) faulty(cfg *Cfg, script []Input, ref *epoch, k int, cancelInCo
 			violate(lib.Violation{Sig: "commit-acknowledged-without-persisted-block", What: e, Replay: rp})
 		}
 	}
+	rn.tieCommits(ep, rp)
 	if !stopped {
 		violate(lib.Violation{Sig: "driver-continues-after-failed-" + kind, What: "Run did not return an error after the injected fault", Replay: rp})
 	}
@@ -1418,6 +1452,71 @@ func (rn *runner) replayFault(cfg *Cfg, ep *epoch, k, j int, rp Replay) {
 	rn.res.Case(fmt.Sprintf("%v|%v|rfault%d", *cfg, rp.Kills, j), true)
 }
 
+// tieCommits: every call of the real commit listener (mode "store") against ModelCommit.lean — the
+// answer, whether the block reached the persister, whether it was acknowledged, whether the build
+// results of the height were dropped, and how Run ended when the answer was false.
+func (rn *runner) tieCommits(ep *epoch, rp Replay) {
+	if rn.drv == nil {
+		return
+	}
+	b := func(x bool) string {
+		if x {
+			return "1"
+		}
+		return "0"
+	}
+	for i, ob := range ep.commitObs {
+		ans := rn.ask(fmt.Sprintf("oncommit %s %s %s %s", b(ob.Found), b(ob.HandedOver), ob.Persist, b(ob.CtxEnded)))
+		f := strings.Fields(ans)
+		rn.res.Compared(1)
+		rn.res.Hit("commit-listener-call-compared")
+		if len(f) != 3 {
+			rn.res.Mismatch(lib.Mismatch{Sig: "commit-listener-model", Input: rp, Model: ans, Impl: ob})
+			continue
+		}
+		var steps []string
+		if ob.Handover {
+			steps = append(steps, "handover")
+		}
+		if ob.Acked {
+			steps = append(steps, "acked")
+		}
+		if ob.Finalized {
+			// hooks are not observable (none registered); the model lists them between acked and finalize
+			steps = append(steps, "hooks", "finalize")
+		}
+		got := "-"
+		if len(steps) > 0 {
+			got = strings.Join(steps, ",")
+		}
+		res := "ok"
+		if !ob.Result {
+			res = "refused"
+			if ob.CtxEnded {
+				res = "ctxerr"
+			}
+		}
+		// how Run ended: only known for the last call of a stopped process
+		if !ob.Result && i == len(ep.commitObs)-1 {
+			for _, e := range ep.errs {
+				if strings.HasPrefix(e, "run: ") {
+					switch {
+					case strings.Contains(e, "commit listener failed"):
+						res = "refused"
+					case strings.Contains(e, "context canceled"):
+						res = "ctxerr"
+					}
+				}
+			}
+		}
+		want := fmt.Sprintf("%s %s %s", res, b(ob.Result), got)
+		if want != ans {
+			rn.res.Mismatch(lib.Mismatch{Sig: "commit-listener-model", Input: map[string]any{"replay": rp, "call": ob}, Model: ans, Impl: want})
+		}
+		rn.res.Hit("commit-listener-" + f[0])
+	}
+}
+
 func firstOther(cfg *Cfg) int {
 	if cfg.Me == 0 {
 		return 1
@@ -1485,9 +1584,11 @@ func (rn *runner) rootCase(cfg *Cfg, script []Input, genLen int, r *lib.RNG, fix
 		}
 	}
 	viaListener := r.Bool()
+	ep.closeWhich = r.Intn(3)
 	ep.stopVia(viaListener)
 	if viaListener {
 		rn.res.Hit("stopped-by-closed-listener")
+		rn.res.Hit([]string{"stopped-by-closed-precommit-listener", "stopped-by-closed-prevote-listener", "stopped-by-closed-proposal-listener"}[ep.closeWhich])
 	} else {
 		rn.res.Hit("stopped-by-context")
 	}
@@ -1501,9 +1602,22 @@ func (rn *runner) rootCase(cfg *Cfg, script []Input, genLen int, r *lib.RNG, fix
 				first = true
 			}
 		}
-		if !first && len(names) > 0 {
+		second := false
+		for _, n := range names {
+			if strings.HasPrefix(filepath.Base(n), "000002.") {
+				second = true
+			}
+		}
+		switch {
+		case rn.earlyLong && first && second:
+			rn.res.Hit("long-run-log-file-000001-kept-by-cleanup-for-early-messages")
+		case rn.earlyLong:
+			// the early messages of the heights still to come live in the first file: not a harness
+			// failure but a loss the oracles below report with the concrete history
+			rn.res.Hit("long-run-early-first-log-file-missing-after-cleanup")
+		case !first && len(names) > 0:
 			rn.res.Hit("long-run-log-file-000001-removed-by-cleanup")
-		} else {
+		default:
 			rn.res.Fatalf("long run: the log store's cleanup did not remove the first log file (%d files): the family does not reach the situation it is for", len(names))
 		}
 	}
@@ -1540,6 +1654,7 @@ func (rn *runner) rootCase(cfg *Cfg, script []Input, genLen int, r *lib.RNG, fix
 	rn.ask(fmt.Sprintf("reset %d", cfg.C0))
 	rn.bootModel(cfg, cfg.C0+1)
 	rn.tie(ep, rp)
+	rn.tieCommits(ep, rp)
 	rn.hypotheses(ep, rp)
 	rn.oracle(cfg, ep, lineage{props: map[[2]int][]string{}}, rp, -1, "")
 	// the live state is a function of the log: same state as a fresh machine fed the node's own log
@@ -1561,6 +1676,9 @@ func (rn *runner) rootCase(cfg *Cfg, script []Input, genLen int, r *lib.RNG, fix
 	rn.res.Case(fmt.Sprintf("%v|%v", *cfg, script), len(ep.effects) > 2)
 	rn.explore(cfg, script, 0, ep, lineage{props: map[[2]int][]string{}}, 0, r, fixed)
 	if fixed != nil {
+		if rn.replayWF != nil && rn.replayWF.K < len(ep.effects) {
+			rn.walFaulty(cfg, script, ep, *rn.replayWF)
+		}
 		return
 	}
 	rn.graceful(cfg, script, ep)
@@ -1587,6 +1705,15 @@ func (rn *runner) rootCase(cfg *Cfg, script []Input, genLen int, r *lib.RNG, fix
 		for i := 0; i < len(cand) && i < lim; i++ {
 			rn.silentNetwork(cfg, script, ep, cand[i])
 		}
+	}
+	// the REAL log store fails to flush (walfault.go)
+	switch {
+	case rn.deep:
+		rn.walFaults(cfg, script, ep, r, rn.minInput, 2)
+	case rn.exhaustive:
+		rn.walFaults(cfg, script, ep, r, 0, 0)
+	default:
+		rn.walFaults(cfg, script, ep, r, 0, rn.f.Scale(3, 8))
 	}
 	if rn.noFault {
 		return
@@ -1647,6 +1774,7 @@ func (rn *runner) rootCase(cfg *Cfg, script []Input, genLen int, r *lib.RNG, fix
 		if cfg.AppMode == "store" {
 			rn.faulty(cfg, script, ep, fd[i], 1)
 			rn.faulty(cfg, script, ep, fd[i], 2)
+			rn.faulty(cfg, script, ep, fd[i], 3)
 		}
 	}
 }
@@ -1699,6 +1827,80 @@ func (rn *runner) staleActionsProbe() {
 	}
 }
 
+// realTimerProbe: everywhere else timers are armed for 24 h and the harness injects the timeouts into
+// the driver's channel itself. Here the timers the driver arms are REAL (1 ms): they fire by
+// themselves, through the driver's own AfterFunc closure and its scheduledTms bookkeeping, and the
+// select loop hands the timeout to the state machine. A silent network of three rounds: propose
+// timeout, (nil prevotes) prevote timeout, (nil precommits) precommit timeout, next round's propose
+// timeout … Every timeout the state machine is called with must be exactly the one armed last (the
+// model's assumption: a `setTimer st h r` effect is followed, if anything, by the input
+// `timeout st h r`), and the node's votes are the nil votes of an uncrashed model run. Nothing here
+// depends on how long a timer takes; the waits are bounded by the harness' step deadline only.
+func (rn *runner) realTimerProbe() {
+	cfg := &Cfg{Powers: []uint64{1, 1, 1, 1}, Tbl: []int{1, 2, 0}, PMul: 0, Me: 3, C0: 6, AppMode: "stable"}
+	fired := make(chan string, 64)
+	ep, err := startEpoch(cfg, rn.dir(), "", cfg.C0, 0, -1, func(e *epoch) { e.realTimers, e.firedCh, e.noDumps = true, fired, true })
+	if err != nil {
+		rn.res.Fatalf("real-timer probe could not start: %v", err)
+		if ep != nil {
+			ep.stop()
+			ep.cleanup()
+		}
+		return
+	}
+	defer ep.cleanup()
+	h := cfg.C0 + 1
+	wait := func(want string) bool {
+		select {
+		case got := <-fired:
+			rn.res.Compared(1)
+			rn.res.Hit("real-timer-fired")
+			if got != want {
+				rn.res.Mismatch(lib.Mismatch{Sig: "real-timer-delivers-other-timeout-than-armed", Input: "armed " + want, Model: want, Impl: got})
+				return false
+			}
+		case <-time.After(stepDeadline):
+			rn.res.Fatalf("real-timer probe: the armed timer %s did not reach the state machine within %s", want, stepDeadline)
+			return false
+		}
+		return ep.sync() == nil
+	}
+	ok := true
+	for r := 0; r < 3 && ok; r++ {
+		ok = wait(fmt.Sprintf("t:0:%d:%d", h, r)) // propose timeout -> prevote nil
+		for s := 0; s < 2 && ok; s++ {
+			ok = ep.feed(r*10+s, Input{K: "v", H: h, R: r, Sender: s, Nil: true}) == nil
+		}
+		ok = ok && wait(fmt.Sprintf("t:1:%d:%d", h, r)) // 2f+1 prevotes, no polka yet counted: prevote timeout -> precommit nil
+		for s := 0; s < 2 && ok; s++ {
+			ok = ep.feed(r*10+5+s, Input{K: "c", H: h, R: r, Sender: s, Nil: true}) == nil
+		}
+		ok = ok && wait(fmt.Sprintf("t:2:%d:%d", h, r)) // precommit timeout -> next round
+	}
+	// a timer that is still pending when the process stops (the next round's propose timer may or may
+	// not have fired): Run must return
+	ep.stop()
+	for _, e := range ep.errs {
+		rn.res.Mismatch(lib.Mismatch{Sig: "real-timer-probe-error", Impl: e})
+	}
+	var votes []string
+	for _, v := range votesOf(ep.effects) {
+		votes = append(votes, fmt.Sprintf("%s:%d:%d:%s", v.kind, v.h, v.r, v.id))
+	}
+	want := []string{}
+	for r := 0; r < 3; r++ {
+		want = append(want, fmt.Sprintf("sv:%d:%d:nil", h, r), fmt.Sprintf("sc:%d:%d:nil", h, r))
+	}
+	rn.res.Compared(1)
+	if len(votes) > len(want) {
+		votes = votes[:len(want)] // round 3's propose timer may have fired before the stop
+	}
+	if ok && strings.Join(votes, " ") != strings.Join(want, " ") {
+		rn.res.Mismatch(lib.Mismatch{Sig: "real-timer-probe-votes", Model: strings.Join(want, " "), Impl: strings.Join(votes, " ")})
+	}
+	rn.res.SetExtra("real_timers_deliver_the_armed_timeout", ok)
+}
+
 // longRun: the node (never proposer, 3 equal validators, quorum = own vote + one peer) is driven
 // through `heights` committed heights on the happy path within ONE process lifetime — enough for
 // the log store's periodic cleanup (every 256 prune records: watermark file, rotation, removal of
@@ -1730,6 +1932,45 @@ func longRun(heights int) (*Cfg, []Input, int) {
 		Input{K: "p", H: h, R: 1, Sender: cfg.proposerIdx(h, 1), VR: -1, Val: val(h) + 7},
 		Input{K: "v", H: h, R: 1, Sender: 1, Val: val(h) + 7},
 		Input{K: "v", H: h + 1, R: 0, Sender: 0, Val: val(h + 1)})
+	return cfg, s, last
+}
+
+// longRunEarly: like longRun, but messages of the two heights AFTER the last committed one arrive
+// early — before the commit that triggers the store's cleanup — and are not sent again: the
+// proposal of height heights+1 (two heights ahead when it arrives), a prevote for it, and a prevote
+// of height heights+2. They are recorded in the log file that the cleanup rotates away from; that
+// file must survive the cleanup (it is still referenced by live heights), and a node restarted in
+// height heights+1 must find them: it prevoted the early proposal right after `start`.
+func longRunEarly(heights int) (*Cfg, []Input, int) {
+	cfg := &Cfg{Powers: []uint64{1, 1, 1}, Tbl: []int{0, 1}, PMul: 1, Me: 2, C0: 0, AppMode: "stable"}
+	var s []Input
+	val := func(h uint64) uint64 {
+		v := h*1000 + 600
+		for !validVal(v) {
+			v++
+		}
+		return v
+	}
+	n := uint64(heights)
+	for h := uint64(1); h <= n; h++ {
+		pr := cfg.proposerIdx(h, 0)
+		s = append(s, Input{K: "p", H: h, R: 0, Sender: pr, VR: -1, Val: val(h)})
+		if h == n-1 {
+			s = append(s, Input{K: "p", H: n + 1, R: 0, Sender: cfg.proposerIdx(n+1, 0), VR: -1, Val: val(n + 1)})
+		}
+		if h == n {
+			s = append(s, Input{K: "v", H: n + 1, R: 0, Sender: 1, Val: val(n + 1)}, Input{K: "v", H: n + 2, R: 0, Sender: 0, Val: val(n + 2)})
+		}
+		s = append(s, Input{K: "v", H: h, R: 0, Sender: 0, Val: val(h)}, Input{K: "c", H: h, R: 0, Sender: 0, Val: val(h)})
+	}
+	last := len(s)
+	h := n + 1
+	s = append(s, Input{K: "c", H: h, R: 0, Sender: 0, Nil: true},
+		Input{K: "t", Step: 0, H: h, R: 0}, // obsolete: the node prevoted the early proposal at once
+		Input{K: "c", H: h, R: 0, Sender: 1, Nil: true},
+		Input{K: "t", Step: 2, H: h, R: 0},
+		Input{K: "p", H: h, R: 1, Sender: cfg.proposerIdx(h, 1), VR: -1, Val: val(h) + 7},
+		Input{K: "v", H: h, R: 1, Sender: 1, Val: val(h) + 7})
 	return cfg, s, last
 }
 
@@ -1848,6 +2089,7 @@ func main() {
 	}
 
 	(&runner{f: f, res: res, base: filepath.Join(base, "probe")}).staleActionsProbe()
+	(&runner{f: f, res: res, base: filepath.Join(base, "probe2")}).realTimerProbe()
 
 	if f.Replay != "" {
 		var file struct {
@@ -1868,6 +2110,7 @@ func main() {
 			kills = []Kill{}
 		}
 		cfg := file.Replay.Cfg
+		rn.replayWF = file.Replay.Fault
 		if cfg.Sync {
 			rn.syncCase(&cfg, append([]Input{}, file.Replay.Script...), nil, lib.NewRNG(f.Seed), true)
 		} else {
@@ -1885,6 +2128,7 @@ func main() {
 		id     uint64
 		minIn  int
 		long   bool
+		early  bool
 		sync   bool
 	}
 	var jobs []job
@@ -1900,6 +2144,11 @@ func main() {
 			c, sc, last := longRun(hts)
 			jobs = append([]job{{cfg: c, script: sc, id: uint64(2000 + i), minIn: last, long: true}}, jobs...)
 		}
+	}
+	{
+		// messages of heights 257 / 258 recorded before the 256th commit (the cleanup must keep their file)
+		c, sc, last := longRunEarly(256)
+		jobs = append([]job{{cfg: c, script: sc, id: 2100, minIn: last, long: true, early: true}}, jobs...)
 	}
 	for i, d := range syncDirected() {
 		c := d.Cfg
@@ -1951,7 +2200,7 @@ func main() {
 			rn := &runner{f: f, res: res, drv: drv, base: filepath.Join(base, fmt.Sprintf("w%d", w))}
 			for j := range ch {
 				rn.exhaustive = j.script != nil
-				rn.minInput, rn.deep, rn.noFault = j.minIn, j.long, j.long
+				rn.minInput, rn.deep, rn.noFault, rn.earlyLong = j.minIn, j.long, j.long, j.early
 				if j.long {
 					rn.res.Hit("long-run-family")
 				}
